@@ -1542,4 +1542,56 @@ theorem sstep_refines {c : SCfg} (hj : c.junk.length = c.N + 1) {m : SRegs} {sp 
           simpa [specSStep, hk, hs] using this
     · exact ⟨m, by simp [sstep, specSStep, hk], by simpa [specSStep, hk] using h⟩
 
+theorem minv_init (c : Cfg) : MInv c Mach.init (fun _ => none) :=
+  ⟨fun _ => trivial, fun _ _ => rfl, by
+    have : ∀ k, total (szOf (fun _ => none)) k = 0 := by
+      intro k; induction k with
+      | zero => rfl
+      | succ k ih => simp [total, ih, szOf]
+    simp [Mach.init, this]⟩
+
+theorem run_refines {c : Cfg} : ∀ (ops : List Op) (m : Mach) (sp : SpecRegs), MInv c m sp →
+    ∃ m', run c ops m = .ok m' ∧ MInv c m' (specRun c ops sp) := by
+  intro ops
+  induction ops with
+  | nil => intro m sp h; exact ⟨m, rfl, h⟩
+  | cons op ops ih =>
+    intro m sp h
+    obtain ⟨mr, h1, h2⟩ := step_refines h op
+    obtain ⟨m', h3, h4⟩ := ih mr.1 _ h2
+    exact ⟨m', by simp [run, h1, h3, bind, Except.bind], h4⟩
+
+theorem specRun_append (c : Cfg) : ∀ (a b : List Op) (sp : SpecRegs), specRun c (a ++ b) sp = specRun c b (specRun c a sp) := by
+  intro a
+  induction a with
+  | nil => intro b sp; rfl
+  | cons op a ih => intro b sp; simp [specRun, ih]
+
+theorem total_zero (k : Nat) : total (szOf (fun _ => none)) k = 0 := by
+  induction k with
+  | zero => rfl
+  | succ k ih => simp [total, ih, szOf]
+
+theorem srun_refines {c : SCfg} (hj : c.junk.length = c.N + 1) : ∀ (ops : List SOp) (m : SRegs) (sp : SpecS),
+    SInv c m sp → (∀ op, op ∈ ops → op.wf) →
+    ∃ m', srun c ops m = .ok (m', (specSRun c ops sp).2) ∧ SInv c m' (specSRun c ops sp).1 := by
+  intro ops
+  induction ops with
+  | nil => intro m sp h _; exact ⟨m, rfl, h⟩
+  | cons op ops ih =>
+    intro m sp h hwf
+    obtain ⟨m1, h1, h2⟩ := sstep_refines hj h op (hwf op (List.mem_cons_self ..))
+    obtain ⟨m', h3, h4⟩ := ih m1 _ h2 (fun o ho => hwf o (List.mem_cons_of_mem _ ho))
+    exact ⟨m', by simp [srun, specSRun, h1, h3, bind, Except.bind, pure, Except.pure], h4⟩
+
+theorem tw_all (p : Byte → Bool) : ∀ (l : List Byte), (∀ x, x ∈ l → p x = true) → l.takeWhile p = l := by
+  intro l
+  induction l with
+  | nil => intro _; rfl
+  | cons b rest ih =>
+    intro h
+    have hb : p b = true := h b (List.mem_cons_self ..)
+    simp [List.takeWhile_cons, hb]
+    exact ih (fun x hx => h x (List.mem_cons_of_mem _ hx))
+
 end Igris.C14
